@@ -434,5 +434,12 @@ def js_pure(prog: Program) -> RuleResult:
     return r
 
 
+def _shared_default(prog):
+    # the writer and reader keep nothing between calls, default arguments included
+    from .shareddefault import shared_default
+
+    return shared_default(prog, ["adapters.json_serializer"], 10)
+
+
 def run(prog: Program, tier: str) -> List[RuleResult]:
-    return [js_tag(prog, tier), js_agree(prog), js_pure(prog)]
+    return [js_tag(prog, tier), js_agree(prog), js_pure(prog), _shared_default(prog)]
